@@ -27,6 +27,7 @@
 #include <sys/stat.h>
 #include <errno.h>
 #include <unistd.h>
+#include <sys/wait.h>
 
 #include "iojournal.h"
 #include "version_set.h"
@@ -105,6 +106,13 @@ static void print_ikey_parts(FILE *out, const ldb_buffer_t *ik) {
 static long long g_first_apply_lognum = -1;
 static int wl_versions_apply(ldb_versions_t *vset, ldb_edit_t *edit, ldb_mutex_t *mu) {
   int rc; size_t i; rb_iter_t it; int first;
+  /* edits of other databases opened by the harness itself (crash images, backups) are not part of the transcript */
+  if (strcmp(vset->dbname, g_dir) != 0) {
+    pthread_mutex_lock(&g_bglock);
+    if (g_first_apply_lognum < 0) g_first_apply_lognum = (long long)vset->log_number;
+    pthread_mutex_unlock(&g_bglock);
+    return ldb_versions_apply(vset, edit, mu);
+  }
   pthread_mutex_lock(&g_bglock);
   if (g_first_apply_lognum < 0) g_first_apply_lognum = (long long)vset->log_number;
   if (!g_bg) g_bg = open_memstream(&g_bgbuf, &g_bglen);
@@ -250,7 +258,12 @@ static int parse_opts(char **f, int nf, int from) {
     else if (!strcmp(f[i], "block")) g_opt.block_size = v;
     else if (!strcmp(f[i], "restart")) g_opt.block_restart_interval = v;
     else if (!strcmp(f[i], "comp")) g_opt.compression = v ? LDB_SNAPPY_COMPRESSION : LDB_NO_COMPRESSION;
-    else if (!strcmp(f[i], "filter")) { if (g_bloom) { ldb_bloom_destroy(g_bloom); g_bloom = NULL; } if (v > 0) { g_bloom = ldb_bloom_create(v); g_opt.filter_policy = g_bloom; } }
+    else if (!strcmp(f[i], "filter")) {
+      /* filter policies are shared by every handle opened with the same bits and are never freed (a second open
+         or a crash-image reopen may run while the first handle still uses its policy) */
+      static ldb_bloom_t *blooms[128];
+      if (v > 0 && v < 128) { if (!blooms[v]) blooms[v] = ldb_bloom_create(v); g_bloom = blooms[v]; g_opt.filter_policy = g_bloom; }
+    }
     else if (!strcmp(f[i], "cache")) { if (g_cache) { /* destroyed at close */ } if (v >= 0) { g_cache = ldb_lru_create(v); g_opt.block_cache = g_cache; } }
     else if (!strcmp(f[i], "maxfile")) g_opt.max_file_size = v;
     else if (!strcmp(f[i], "maxopen")) g_opt.max_open_files = v;
@@ -415,11 +428,12 @@ static void handle(char *line) {
     int rc;
     if (g_db) { printf("err already open\n"); return; }
     snprintf(g_dir, sizeof(g_dir), "%s", f[1]);
+    { ldb_dbopt_t prev = g_opt; const char *prevcmp = g_cmpname;
     if (!parse_opts(f, nf, 2)) { printf("err bad opts\n"); return; }
     if (g_journal) { snprintf(g_jroot, sizeof(g_jroot), "%s", g_dir); jmark("open-begin"); }
     rc = ldb_open(g_dir, &g_opt, &g_db);
     if (g_journal) jmark("open-end %d", rc);
-    if (rc != LDB_OK) g_db = NULL;
+    if (rc != LDB_OK) { g_db = NULL; if (prevcmp) { g_opt = prev; g_cmpname = prevcmp; } } }
     flush_bg_events();
     printf("open %d cmp=%s\n", rc, g_cmpname);
     if (g_journal) jprint_new();
@@ -437,6 +451,60 @@ static void handle(char *line) {
     flush_bg_events();
     if (g_journal) jprint_new();
     printf("close\n");
+  } else if (nf == 2 && !strcmp(f[0], "lockprobe")) {
+    /* lockprobe <dir>: can ANOTHER PROCESS open the database right now?  (fork + exec of ourselves in probe mode) */
+    pid_t pid; int st = 0; fflush(stdout);
+    pid = fork();
+    if (pid == 0) { execl("/proc/self/exe", "wl", "--probe", f[1], (char *)0); _exit(97); }
+    waitpid(pid, &st, 0);
+    printf("lockprobe %d\n", WIFEXITED(st) ? WEXITSTATUS(st) : 98);
+  } else if (nf >= 2 && !strcmp(f[0], "open2")) {
+    /* open2 <dir> [opts]: a second ldb_open while the first handle (if any) stays open; the handle is closed at once */
+    ldb_t *db2 = NULL; ldb_dbopt_t save = g_opt; const char *savecmp = g_cmpname; int rc;
+    if (!parse_opts(f, nf, 2)) { printf("err bad opts\n"); g_opt = save; return; }
+    if (g_journal) jmark("open2-begin");
+    rc = ldb_open(f[1], &g_opt, &db2);
+    if (g_journal) jmark("open2-end %d", rc);
+    if (rc == LDB_OK) ldb_close(db2);
+    g_opt = save; g_cmpname = savecmp;
+    flush_bg_events_discard();
+    printf("open2 %d\n", rc);
+    if (g_journal) jprint_new();
+  } else if (nf == 2 && !strcmp(f[0], "backup")) {
+    int rc;
+    if (!g_db) { printf("err not open\n"); return; }
+    rc = ldb_backup(g_db, f[1]);
+    printf("backup %d %s\n", rc, f[1]);
+    after_op();
+  } else if (nf == 2 && !strcmp(f[0], "bcheck")) {
+    /* bcheck <dir>: open the backup/copy as an independent database, dump everything a reader can see, close */
+    ldb_t *db2 = NULL; ldb_dbopt_t o2 = g_opt; int rc; int saved = g_journal;
+    g_journal = 0;
+    o2.create_if_missing = 0; o2.info_log = NULL; o2.block_cache = NULL;
+    rc = ldb_open(f[1], &o2, &db2);
+    printf("bcheck %s rc=%d ", f[1], rc);
+    if (rc == LDB_OK) { dump_internal(db2); ldb_close(db2); } else printf(".");
+    fputc('\n', stdout);
+    flush_bg_events_discard();
+    g_journal = saved;
+  } else if (nf == 3 && !strcmp(f[0], "copy")) {
+    int rc = ldb_copy(f[1], f[2], &g_opt);
+    printf("copy %d %s\n", rc, f[2]);
+  } else if (nf == 2 && !strcmp(f[0], "foreign")) {
+    /* create a file the database does not own inside its directory */
+    char path[1024]; FILE *fp; snprintf(path, sizeof(path), "%s/%s", g_dir, f[1]);
+    fp = fopen(path, "w"); if (fp) { fputs("foreign\n", fp); fclose(fp); }
+    printf("foreign %s\n", f[1]);
+  } else if (nf == 1 && !strcmp(f[0], "destroy")) {
+    int rc;
+    if (g_db) { printf("err destroy needs a closed db\n"); return; }
+    rc = ldb_destroy(g_dir, &g_opt);
+    printf("destroy %d\n", rc);
+    do_ls();
+  } else if (nf == 1 && !strcmp(f[0], "lsclosed")) {
+    do_ls();
+  } else if (nf == 1 && !strcmp(f[0], "expectfail")) {
+    printf("expectfail\n");
   } else if (nf == 2 && !strcmp(f[0], "repair")) {
     /* repair <variant>: db must be closed.  variant 0: MANIFEST-* and CURRENT removed; 1: only CURRENT removed;
        2: MANIFEST cut in half; 3: nothing removed (repair of an intact database) */
@@ -588,8 +656,17 @@ static void handle(char *line) {
   }
 }
 
-int main(void) {
+int main(int argc, char **argv) {
   char *line = NULL; size_t cap = 0;
+  if (argc == 3 && !strcmp(argv[1], "--probe")) {
+    /* would ldb_open get past the lock?  Take and release the advisory lock exactly as ldb_open does, without
+       running recovery (which would modify the database behind the recording process's back) */
+    char lockname[1024]; ldb_filelock_t *lock = NULL; int rc;
+    if (!ldb_lock_filename(lockname, sizeof(lockname), argv[2])) return 2;
+    rc = ldb_lock_file(lockname, &lock);
+    if (rc == LDB_OK) { ldb_unlock_file(lock); return 0; }
+    return 1;
+  }
   vb_init(&g_a); vb_init(&g_b);
   setvbuf(stdout, NULL, _IOFBF, 1 << 20);
   while (getline(&line, &cap, stdin) > 0) {
